@@ -14,7 +14,8 @@ RULE = ("each configuration (default, bounded incl. x0 outside/on bounds, scaled
         "results (x, resid, obj, nf, nx, nruns, flag, msg, Jacobian, evaluation numbers); x0 / bounds / user_params equal to pristine "
         "copies afterwards; the third run passes read-only arrays and a mutation-recording dict so an in-place write traps at its source "
         "line. Positive control: configurations with init.random_initial_directions must be seen to differ. Non-trivial = triple with "
-        ">= n+2 evaluations; distinct by configuration hash")
+        ">= n+2 evaluations; distinct by configuration hash"
+        ' Second session: in a third of the triples the second call passes the same values in other calling forms (gen.FORMS) and must reproduce the first call bit for bit; parameters of switched-off options (restarts.max_npt without increase_npt).')
 ASSUMPTIONS = ["options documented or coded to draw random directions (random initial directions, growing, momentum steps, increase_npt) are "
                "outside the statement and only used as positive control",
                "objective functions used here are deterministic"]
